@@ -464,6 +464,159 @@ theorem run_sim {A : Allocator} (cfg : Cfg) (hneed : ∀ b, 0 < cfg.need b) (ops
     obtain ⟨e1, e2⟩ := step_sim cfg hneed c a op h
     simp only [run, Abs.run, e1, ih _ _ e2]
 
+/-! ### B. the inline machine driven to the end of a stream is `Engine.Pipe` -/
+
+/-- `for batch in session` on the inline machine -/
+def absIterAll : Nat → Abs.Sess → List Ev
+  | 0, _ => []
+  | n + 1, s => if s.closed then [] else (Abs.sendOp s none none).1.evs ++ absIterAll n (Abs.sendOp s none none).2
+
+/-- inputs one by one (stopping once the session closed itself), then `close()` -/
+def absExchAll : List Batch → Abs.Sess → List Ev
+  | [], s => if s.closed then [] else Abs.drain s.carry
+  | b :: r, s => if s.closed then [] else (Abs.sendOp s (some b) none).1.evs ++ absExchAll r (Abs.sendOp s (some b) none).2
+
+theorem absIterAll_closed (n : Nat) (s : Abs.Sess) (h : s.closed = true) : absIterAll n s = [] := by
+  cases n <;> simp [absIterAll, h]
+
+theorem absExchAll_closed (l : List Batch) (s : Abs.Sess) (h : s.closed = true) : absExchAll l s = [] := by
+  cases l <;> simp [absExchAll, h]
+
+theorem drain_logs (ls : List Log) : Abs.drain (logItems ls) = Sem.lg ls := by
+  induction ls with
+  | nil => rfl
+  | cons l r ih => simp only [logItems, List.map_cons, Abs.drain, Sem.lg] at ih ⊢; rw [ih]
+
+open Engine.Aux in
+theorem abs_iterate (steps : List Step) :
+    ∀ (cl : List Log) (fuel : Nat), steps.length + 2 ≤ fuel →
+      absIterAll fuel ⟨false, none, logItems cl, steps, false, false⟩ = Pipe.iterate (logItems cl) steps := by
+  induction steps with
+  | nil =>
+    intro cl fuel hf
+    obtain ⟨n, rfl⟩ : ∃ n, fuel = n + 1 := ⟨fuel - 1, by simp at hf; omega⟩
+    simp [absIterAll, Abs.sendOp, stepOutOf, stepOut, headStep, processStep, logItems, Abs.items, Abs.isCont, Abs.finishRead,
+      Pipe.iterate, absIterAll_closed, Abs.closeS]
+    have := read_logs_only cl
+    simp only [logItems] at this
+    simp [this, Abs.finishRead, absIterAll_closed, Abs.closeS]
+  | cons st r ih =>
+    intro cl fuel hf
+    simp only [List.length_cons] at hf
+    obtain ⟨n, rfl⟩ : ∃ n, fuel = n + 1 := ⟨fuel - 1, by omega⟩
+    cases hact : st.act with
+    | emit b =>
+      simp only [absIterAll, Abs.sendOp, stepOutOf, stepOut, headStep, processStep, hact, Abs.items, Abs.isCont,
+        Pipe.iterate, Bool.false_eq_true, if_false, restAfter, List.tail_cons]
+      rw [regroup, read_logs_data]
+      simp only [Abs.finishRead, Bool.not_true]
+      rw [ih st.post n (by omega)]
+    | finish =>
+      simp only [absIterAll, Abs.sendOp, stepOutOf, stepOut, headStep, processStep, hact, Abs.items, Abs.isCont,
+        Pipe.iterate, Bool.false_eq_true, if_false, restAfter, List.tail_cons]
+      rw [← logItems_append, ← logItems_append, read_logs_only]
+      simp [Abs.finishRead, absIterAll_closed, Abs.closeS]
+    | emitFinish b =>
+      simp only [absIterAll, Abs.sendOp, stepOutOf, stepOut, headStep, processStep, hact, Abs.items, Abs.isCont,
+        Pipe.iterate, Bool.false_eq_true, if_false, restAfter, List.tail_cons]
+      rw [regroup, read_logs_data]
+      simp only [Abs.finishRead, Bool.not_false]
+      obtain ⟨m, rfl⟩ : ∃ m, n = m + 1 := ⟨n - 1, by omega⟩
+      simp [absIterAll, Abs.sendOp, read_logs_only, Abs.finishRead, absIterAll_closed, Abs.closeS]
+    | raise e =>
+      simp only [absIterAll, Abs.sendOp, stepOutOf, stepOut, headStep, processStep, hact, Abs.items, Abs.isCont,
+        Pipe.iterate, Bool.false_eq_true, if_false, restAfter, List.tail_cons]
+      rw [read_logs_err]
+      simp [Abs.finishRead, absIterAll_closed, Abs.closeS]
+    | nothing =>
+      simp only [absIterAll, Abs.sendOp, stepOutOf, stepOut, headStep, processStep, hact, Abs.items, Abs.isCont,
+        Pipe.iterate, Bool.false_eq_true, if_false, restAfter, List.tail_cons]
+      rw [read_logs_err]
+      simp [Abs.finishRead, absIterAll_closed, Abs.closeS]
+
+open Engine.Aux in
+theorem abs_exchange (steps : List Step) :
+    ∀ (cl : List Log) (inputs : List Batch), inputs.length = steps.length →
+      absExchAll inputs ⟨true, none, logItems cl, steps, false, false⟩ = Pipe.exchangeAll (logItems cl) steps := by
+  induction steps with
+  | nil =>
+    intro cl inputs hl
+    have : inputs = [] := by simpa using hl
+    subst this
+    simp [absExchAll, Pipe.exchangeAll, drain_logs, drainLogs_logs]
+  | cons st r ih =>
+    intro cl inputs hl
+    obtain ⟨b, bs, rfl⟩ : ∃ b bs, inputs = b :: bs := by
+      cases inputs with
+      | nil => simp at hl
+      | cons b bs => exact ⟨b, bs, rfl⟩
+    simp only [List.length_cons, Nat.add_right_cancel_iff] at hl
+    cases hact : st.act with
+    | emit b' =>
+      simp only [absExchAll, Abs.sendOp, stepOutOf, stepOut, headStep, processExchangeStep, processStep, hact, Abs.items,
+        Abs.isCont, Pipe.exchangeAll, Pipe.exchangeOne, Bool.false_eq_true, if_false, if_true, restAfter, List.tail_cons]
+      rw [regroup, read_logs_data]
+      simp only [Abs.finishRead, Bool.not_true]
+      rw [ih st.post bs hl]
+    | finish =>
+      simp only [absExchAll, Abs.sendOp, stepOutOf, stepOut, headStep, processExchangeStep, hact, Abs.items,
+        Abs.isCont, Pipe.exchangeAll, Pipe.exchangeOne, Bool.false_eq_true, if_false, if_true, restAfter, List.tail_cons]
+      rw [read_logs_err]
+      simp [Abs.finishRead, absExchAll_closed, Abs.closeS]
+    | emitFinish b' =>
+      simp only [absExchAll, Abs.sendOp, stepOutOf, stepOut, headStep, processExchangeStep, hact, Abs.items,
+        Abs.isCont, Pipe.exchangeAll, Pipe.exchangeOne, Bool.false_eq_true, if_false, if_true, restAfter, List.tail_cons]
+      rw [read_logs_err]
+      simp [Abs.finishRead, absExchAll_closed, Abs.closeS]
+    | raise e =>
+      simp only [absExchAll, Abs.sendOp, stepOutOf, stepOut, headStep, processExchangeStep, processStep, hact, Abs.items,
+        Abs.isCont, Pipe.exchangeAll, Pipe.exchangeOne, Bool.false_eq_true, if_false, if_true, restAfter, List.tail_cons]
+      rw [read_logs_err]
+      simp [Abs.finishRead, absExchAll_closed, Abs.closeS]
+    | nothing =>
+      simp only [absExchAll, Abs.sendOp, stepOutOf, stepOut, headStep, processExchangeStep, processStep, hact, Abs.items,
+        Abs.isCont, Pipe.exchangeAll, Pipe.exchangeOne, Bool.false_eq_true, if_false, if_true, restAfter, List.tail_cons]
+      rw [read_logs_err]
+      simp [Abs.finishRead, absExchAll_closed, Abs.closeS]
+
+theorem iterAll_sim {A : Allocator} (cfg : Cfg) (hneed : ∀ b, 0 < cfg.need b) (n : Nat) :
+    ∀ (c : Conn A) (t : Abs.Sess), R c (some t) → (iterAll cfg n c).1 = absIterAll n t := by
+  induction n with
+  | zero => intro c t _; rfl
+  | succ n ih =>
+    intro c t h
+    have ho := R_open c _ h
+    obtain ⟨e1, e2⟩ := step_sim cfg hneed c (some t) .tick h
+    simp only [Abs.step] at e1 e2
+    simp only [iterAll, absIterAll, ho, Abs.isOpen]
+    cases t.closed with
+    | true => simp
+    | false => simp [e1, ih _ _ e2]
+
+theorem exchAll_sim {A : Allocator} (cfg : Cfg) (hneed : ∀ b, 0 < cfg.need b) (l : List Batch) :
+    ∀ (c : Conn A) (t : Abs.Sess), R c (some t) → (exchAll cfg l c).1 = absExchAll l t := by
+  induction l with
+  | nil =>
+    intro c t h
+    obtain ⟨e1, _⟩ := step_sim cfg hneed c (some t) .close h
+    simp only [Abs.step] at e1
+    simp only [exchAll, absExchAll, e1]
+    cases t.closed <;> simp
+  | cons b r ih =>
+    intro c t h
+    have ho := R_open c _ h
+    obtain ⟨e1, e2⟩ := step_sim cfg hneed c (some t) (.send b none) h
+    simp only [Abs.step] at e1 e2
+    simp only [exchAll, absExchAll, ho, Abs.isOpen]
+    cases t.closed with
+    | true => simp
+    | false => simp [e1, ih _ _ e2]
+
+theorem open_R {A : Allocator} (cfg : Cfg) (c : Conn A) (hq : sessionOpen c.sess = false) (exch early : Bool)
+    (il : List Log) (steps : List Step) :
+    R (step cfg c (.openS exch early none il steps)).2 (some ⟨exch, none, logItems il, steps, false, false⟩) := by
+  simp [step, hq, R, SessRel, inlLogs, leOnly_logItems]
+
 end Aux
 
 end VgiVerif.C29
